@@ -10,7 +10,8 @@ THEOREMS = ["C02_stream_ends_with_finish_partial", "C02_codec_roundtrip_linear",
             "C02_convert_structured_eq", "C02_codec_roundtrip_loops", "C02_codec_roundtrip_track",
             "C02_stream_at_offset_partial", "C02_call_return_partial", "C02_double_break_fixed",
             "C02_track_at_offset_partial", "C02_track_shapes_convert", "C02_drum_call_return_partial",
-            "C02_drum_routine_at_offset_partial", "C02_song_roundtrip_partial"]
+            "C02_drum_routine_at_offset_partial", "C02_song_roundtrip_partial",
+            "C02_optimised_song_roundtrip_partial", "C02_optimised_song_roundtrip_nodrum_partial", "optOriginal_of_B"]
 LEVEL = "proof"
 STREAM = "conv.events+conv.seq"
 CHUNK = 100
@@ -31,22 +32,30 @@ LEVEL_TEXT = ("see DESIGN §6 C02 and the theorem list in lean/Ctrmml/Properties
               "converter registered = commands without time and loops of them before its first note; the loop section ends in the drum-mode state it starts in; <= 1 loop point per "
               "channel; chunk < 64 KiB) and every channel track in "
               "Timeline.inDomain, the interpreter started at the position the track table lists plays, after masking of index operands, exactly Timeline.expected (calls to any depth "
-              "through the pointer table in either drum-mode state, notes in drum mode through their routines, what is replayed after the loop-back jump). Outside the fragment "
-              "(pitch envelopes, platform `cmd` with index-bearing or unknown opcodes, optimised songs, drum mode switched inside loops / by callees = D27) "
+              "through the pointer table in either drum-mode state, notes in drum mode through their routines, what is replayed after the loop-back jump). (4) Optimised songs: "
+              "C02_optimised_song_roundtrip_partial — C01_optimize_preserves composed with (3): if Opt.optimize returns a validated song that lies in the fragment, the chunk "
+              "assembled from the OPTIMISED song plays Timeline.expected of the ORIGINAL song (Timeline.expected is a function of the observation obs that C01 preserves and of "
+              "how drum routines resolve: SongOpt.expected_congr; extra hypothesis DrumAlike = the routines named by the notes of a performance that switches drum mode resolve "
+              "alike in both songs, vacuous without drum mode: C02_optimised_song_roundtrip_nodrum_partial). Outside the fragment "
+              "(platform `cmd` with index-bearing or unknown opcodes, optimised songs whose result leaves the fragment, drum mode switched inside loops / by callees = D27) "
               "the statement C02_full_statement is decided per case by the spec interpreter on the REAL bytes against Spec/Timeline; the judge marks the cases that are instances "
-              "of the whole-song theorem (ok proved-fragment) and cross-checks the constructor model the theorem is stated over (MdsFile.construct) against the real bytes.")
+              "of the whole-song theorem (ok proved-fragment; for `convo` requests: ok proved-fragment (optimised) = C01's hypotheses on the original song, no drum mode, "
+              "the optimiser model's result in the fragment and assembled by MdsFile.construct to exactly the real bytes) and cross-checks the constructor model the theorem is stated over (MdsFile.construct) against the real bytes.")
 LEVEL_NOTE = ("Trusted: Lean kernel; Model/MdsCodec+MdsConv+MdsFile (byte-exact agreement with mdsdrv.cpp by differential testing); Spec/SeqInterp = my reconstruction of the MDSDRV "
               "sequence rules (driver source not in the repository); Spec/Timeline+Expand; instrument tables are inputs (C11 models them). Proved for all inputs: single tracks of the "
               "codec fragment, and whole songs of the fragment, drum mode included (partial: extra hypotheses = chunk < 64 KiB, at most one loop point per channel track, called tracks "
               "without loop point / drum-mode switch, drum-mode switches outside loops, routine tracks = timeless commands before the first note, loop section ending in the drum state it "
-              "starts in, no pitch envelope, platform commands agreeing between converter and timeline (PlatAgree), acceptance by the constructor). Still decided per case by the "
-              "oracle: pitch envelopes, exotic platform `cmd` opcodes, optimised songs (D2 repaired in 6f86090: a fold takes at most 255 repetitions, Properties/C01 C01_optimize_counts_le_255; the family `d2_cases` "
+              "starts in, platform commands agreeing between converter and timeline (PlatAgree), acceptance by the constructor; for optimised songs additionally the hypotheses "
+              "of C01_optimize_preserves on the original song, the result validated and in the fragment, drum routines resolving alike). Pitch envelope definitions travel in the "
+              "conv requests since round 5 (M:<id>=<form>:<k>:<index>; the harness defines @M<id> in compact / extended / loop-mark / vibrato form and echoes pitch_map and "
+              "pitch_extend as peg=, the model takes them from the request). Still decided per case by the "
+              "oracle: exotic platform `cmd` opcodes, optimised songs outside those hypotheses (D2 repaired in 6f86090: a fold takes at most 255 repetitions, Properties/C01 C01_optimize_counts_le_255; the family `d2_cases` "
               "runs 254..257, 300, 509..511, 1000 repetitions through optimiser + converter), acceptance (that the converter accepts every encodable song). Known: D24 (loop point in a called channel track), "
               "D27 (drum mode decided in text order by the writer, in execution order by the driver). The oracle's domain (skip otherwise): Timeline.inDomain and, since repo fix b6d6699 "
               "(the converter refuses a drum routine whose ending note is inside a '[]' loop: err:drumNoteInLoop), Fragment.routineNotesOutsideLoops (every routine the "
               "specification calls, execution order, has its first note outside loops); the model must refuse exactly the same songs (correspondence).")
 RULE = ("IR songs in the encodable domain from the song grammar (1..4 channel tracks, subroutines, drum routines, loops with breaks, loop point at depth 0, commands, platform commands, "
-        "instruments) + adjacency sweep: ordered triples over {explicit note, implicit-length note, tie, rest<128, rest>=128, rest=last rest, command, SEGNO, LP, LPB, LPF, PAT} x durations "
+        "instruments, pitch envelopes) + pitch family (definitions in four forms, switched on / to another / off at top level, in loops around the break, in subroutines, behind the loop point) + adjacency sweep: ordered triples over {explicit note, implicit-length note, tie, rest<128, rest>=128, rest=last rest, command, SEGNO, LP, LPB, LPF, PAT} x durations "
         "{1,2,127,128,129,256,65535}; non-trivial = has loop/call/segno/long duration; distinct by request text")
 EXPLANATION = "spec interpreter on the real seq bytes vs tick string of the expansion; model vs real converter byte-exact"
 ASSUMPTIONS = ["MDSDRV sequence semantics as written in Spec/SeqInterp.lean", "ppqn = 24 for bpm_to_delta"]
@@ -88,6 +97,17 @@ CORPUS = [
     "conv T0:26.1.0.0,8.100.0.0,26.0.0.0 T100:2.36.1.1 T36:13.7.0.0,2.40.1.0",     # a subroutine called in drum mode is written in drum mode
     "conv T0:26.1.0.0,2.32.24.0,26.0.0.0 T32:4.0.0.0,2.40.1.0,6.2.0.0",             # the routine's note inside a loop: refused (repo fix b6d6699), outside the domain
     "conv T0:26.1.0.0,2.32.24.0,26.0.0.0 T32:4.0.0.0,13.5.0.0,6.2.0.0,2.40.1.0",    # a loop before the routine's note: fine
+    # pitch envelopes (`@M` definitions: M:<id>=<form>:<k>:<expected data bank index>; PITCH_ENVELOPE = event 23): compact, on / off
+    "conv M:1=c:5:1 T0:23.1.0.0,2.36.24.0,23.0.0.0,2.38.12.12",
+    # compact and extended (a slide too steep for the compact form), switched between
+    "conv M:1=c:5:1 M:2=x:7:2 T0:23.2.0.0,2.36.24.0,23.1.0.0,2.38.24.0,23.0.0.0,2.40.24.0",
+    # inside a loop with a break and inside a subroutine; loop mark and vibrato macro forms
+    "conv M:3=l:9:1 M:4=v:1:2 T0:4.0.0.0,23.3.0.0,8.100.0.0,5.0.0.0,23.0.0.0,6.2.0.0 T100:23.4.0.0,2.40.6.6",
+    # next to an instrument; two ids with the same bytes share one data bank entry; behind the loop point
+    "conv I:1=fm:3:1 M:1=c:5:2 M:2=c:5:2 M:3=x:5:3 T0:17.1.0.0,23.1.0.0,2.36.2.0,7.0.0.0,23.2.0.0,23.3.0.0,2.36.2.0",
+    "conv T0:23.7.0.0,2.36.2.0",                                   # an undefined pitch envelope: input error, outside the domain
+    "conv M:1=c:5:1 T0:4.0.0.0,2.36.2.0,23.9.0.0,6.2.0.0",        # the same inside a loop
+    "convo 0 M:1=c:5:1 M:2=x:6:2 T0:23.1.0.0,2.36.6.0,2.36.6.0,2.36.6.0,2.36.6.0,2.36.6.0,2.36.6.0,23.2.0.0,2.36.6.0,23.2.0.0,2.36.6.0,23.2.0.0,2.36.6.0,23.2.0.0,2.36.6.0",
 ]
 
 DURS = [1, 2, 127, 128, 129, 256, 65535]
@@ -136,6 +156,58 @@ def adjacency_cases(rng, T, count):
     return out
 
 
+PEG_FORMS = ["c", "x", "l", "v"]
+
+
+def peg_defs(rng, ids, first_index):
+    """`M:` tokens for the pitch envelope ids `ids`, with the data bank index each one gets: MDSDRV_Data::read_song adds
+    the definitions in tag order after index 0 (the default PSG envelope) and the instruments; equal bytes share one entry"""
+    toks, seen = [], {}
+    nxt = first_index
+    for i in ids:
+        form = rng.choice(PEG_FORMS)
+        k = rng.randrange(100)
+        key = {"c": ("c", k % 100), "x": ("x", 1 + k % 100), "l": ("l", k % 100, k % 50, 1 + k % 7), "v": ("v", k % 5)}[form]
+        if key not in seen:
+            seen[key] = nxt
+            nxt += 1
+        toks.append("M:%d=%s:%d:%d" % (i, form, k, seen[key]))
+    return toks
+
+
+def pitch_cases(rng, T, count):
+    """pitch envelopes end to end: `@M` definitions (compact, extended, with a loop mark, vibrato macro), switched on, to
+    another one and off (`M0`), at the top level, inside counted loops (before and behind the break), in subroutines
+    (which are written once and called from places with different envelopes), behind the loop point"""
+    PE = lambda i: (T["PITCH_ENVELOPE"], i, 0, 0)
+    LS, LB = (T["LOOP_START"], 0, 0, 0), (T["LOOP_BREAK"], 0, 0, 0)
+    LE = lambda c: (T["LOOP_END"], c, 0, 0)
+    N = lambda: (T["NOTE"], rng.randrange(30, 60), rng.choice([1, 6, 24, 130]), rng.choice([0, 0, 6]))
+    for _ in range(count):
+        ids = rng.sample(range(1, 30), rng.choice([1, 2, 3, 4]))
+        defs = peg_defs(rng, ids, 1)
+        pick = lambda: rng.choice(ids + [0])
+        shape = rng.choice(["top", "loop", "loop-break", "sub", "sub-loop", "segno", "nested"])
+        sub = [PE(pick()), N()] + ([PE(0)] if rng.random() < 0.5 else [])
+        if shape == "top":
+            song = {0: [PE(pick()), N(), PE(pick()), N(), PE(0), N()]}
+        elif shape == "loop":
+            song = {0: [N(), LS, PE(pick()), N(), PE(pick()), LE(rng.choice([2, 3])), N()]}
+        elif shape == "loop-break":
+            song = {0: [PE(pick()), LS, N(), PE(pick()), LB, PE(pick()), N(), LE(2), N()]}
+        elif shape == "sub":
+            song = {0: [PE(pick()), (T["JUMP"], 100, 0, 0), PE(pick()), (T["JUMP"], 100, 0, 0), N()], 100: sub}
+        elif shape == "sub-loop":
+            song = {0: [LS, (T["JUMP"], 100, 0, 0), LB, PE(pick()), N(), LE(3)], 100: sub}
+        elif shape == "segno":
+            song = {0: [PE(pick()), N(), (T["SEGNO"], 0, 0, 0), N(), PE(pick()), N()]}
+        else:
+            song = {0: [LS, PE(pick()), LS, N(), LB, PE(pick()), LE(2), N(), LE(2), PE(0), N()]}
+        if rng.random() < 0.3:
+            song[1] = [PE(pick()), N(), N()]
+        yield Case("conv " + " ".join(defs + [songgen.render(song)]), ("pitch", shape), "pitch")
+
+
 def nested_break_cases(T, tier):
     LS, LB = (T["LOOP_START"], 0, 0, 0), (T["LOOP_BREAK"], 0, 0, 0)
     LE = lambda c: (T["LOOP_END"], c, 0, 0)
@@ -178,6 +250,8 @@ def _cases_orig(rng, tier):
     # after each loop end depends on which exit was taken (bounded-exhaustive over two lengths)
     for song, name in nested_break_cases(T, tier):
         yield Case("conv " + songgen.render(song), ("nested-break", name), "nested-break")
+    for c in pitch_cases(rng, T, 60 if tier == "quick" else 800):
+        yield c
     n = 300 if tier == "quick" else 5000
     made = 0
     while made < n:
@@ -247,6 +321,16 @@ def _cases_orig(rng, tier):
             extra.append("I:2=psg:%d:2" % rng.randrange(100))
             song[0].insert(0, g.ev("INS", 1))
             tags.add("ins")
+        if rng.random() < 0.2:
+            # pitch envelopes: definitions behind the instruments (data bank indices continue), switched anywhere in
+            # channel 0 (inside loops too) and in the first subroutine
+            ids = rng.sample(range(1, 30), rng.choice([1, 2, 3]))
+            extra.extend(peg_defs(rng, ids, 3 if "ins" in tags else 1))
+            for _ in range(rng.choice([1, 2, 3])):
+                song[0].insert(rng.randrange(0, len(song[0]) + 1), g.ev("PITCH_ENVELOPE", rng.choice(ids + [0])))
+            if 100 in song and rng.random() < 0.5:
+                song[100].insert(rng.randrange(0, len(song[100]) + 1), g.ev("PITCH_ENVELOPE", rng.choice(ids + [0])))
+            tags.add("pitch")
         if any(songgen.expanded_size(song, t, T) > 1500 for t in range(ntr)):
             continue
         flat = [e for evs in song.values() for e in evs]
